@@ -26,7 +26,9 @@ CONSTANTS Loaders,     \* verified loaders in process A
           RawReaders,  \* unverified readers in process B
           Inits,       \* initial states of the cached file
           ExtBudget,   \* number of third-party actions
-          Variant      \* "ok" | "noverify" | "noforget" | "direct" | "keeppartial"
+          Variant      \* "ok" | "noverify" | "noforget" | "direct" | "keeppartial" |
+                       \* "armfirst" (the circuit breaker is tripped by the Forget call itself, before and whether
+                       \* or not a file is removed, instead of by a removal that happened)
 
 VARIABLES cfile,      \* "absent" | "good" | "bad" (corrupt or cut short) | "partial" (being written in place)
           inprog,     \* process |-> registered downloader or "none"
@@ -136,7 +138,8 @@ Verify(p) ==
 Forget(p) ==
   /\ pc[p] = "forget"
   /\ pc' = Set(pc, p, IF forgotten[ProcOf(p)] THEN "start" ELSE "remove")
-  /\ UNCHANGED <<cfile, inprog, forgotten, buf, attempt, waitfor, result, dlerr, ext, extflip, faults, init0>>
+  /\ forgotten' = IF Variant = "armfirst" THEN Set(forgotten, ProcOf(p), TRUE) ELSE forgotten
+  /\ UNCHANGED <<cfile, inprog, buf, attempt, waitfor, result, dlerr, ext, extflip, faults, init0>>
 
 Remove(p) ==
   /\ pc[p] = "remove"
